@@ -42,6 +42,7 @@ def hb_events(run):
     started = []
     check_plain = True
     atomics = set()   # locations already used atomically: the tap's echo of the shim's own storage access is dropped
+    plains = set()    # plain locations seen so far (for the destruction / deallocation of a traced heap block)
     n = -1
     for l in run["trace"]:
         t = l.split()
@@ -91,8 +92,15 @@ def hb_events(run):
             ev = ("rd", a[1], None) if a[1] != "?" else ("nop", None, None)
         elif k == "cpe":        # ... complete: write of the target
             ev = ("wr", a[0], None) if a[0] != "?" else ("nop", None, None)
+        elif k in ("des", "fre") and len(a) == 1:
+            # destruction / deallocation of a traced heap block (rcu_list node / log record): a write of its plain
+            # payload field, if that field has been accessed before
+            f = a[0] + ".data" if a[0] + ".data" in plains else a[0] + ".zombie_node" if a[0] + ".zombie_node" in plains else None
+            ev = ("wr", f, None) if f else ("nop", None, None)
         else:
             ev = ("nop", None, None)
+        if ev[0] in ("rd", "wr"):
+            plains.add(ev[1])
         if ev[0] in ("ld", "st", "rmw") and ev[2] not in ORDERS:
             return evs, check_plain, "unknown memory order in '%s'" % l
         evs.append((tid, ev[0], ev[1], ev[2], n, l))
@@ -240,7 +248,8 @@ def register(PROPS, COMPONENTS):
         names.append(cname)
     PROPS["C07"] = dict(
         lean_files=["ConcVerif/Props/C07.lean", "ConcVerif/Props/C07_lr.lean", "ConcVerif/Props/C07_tripwire.lean",
-                    "ConcVerif/Props/C07_deferred.lean", "ConcVerif/Props/C07_trigger.lean"],
+                    "ConcVerif/Props/C07_deferred.lean", "ConcVerif/Props/C07_trigger.lean", "ConcVerif/Props/C07_rcu.lean",
+                    "ConcVerif/Props/C07_cow.lean"],
         components=names, stage="B", pre=selftest_hb,
         level_text="Lean 4 theorems (kernel-checked; any number of threads, locations and events) over a generic event model of "
                    "mutex / shared-mutex / condition-variable / atomic (with the memory order written in the source) / plain / "
@@ -266,7 +275,28 @@ def register(PROPS, COMPONENTS):
                    "a queued task reaches the drainer through the queue mutex alone, for ANY orders of the pending flag; "
                    "TriggerVariable: a load of triggered/activated that sees a non-initial value reads from a store of that value "
                    "which happens-before it, so what the triggering thread did before trigger() is ordered before what the "
-                   "waiter does after the load that ended wait(). "
+                   "waiter does after the load that ended wait(); "
+                   "rcu_list / rcu_guarded (over every trace the rcu model accepts up to the start of the list destructor, for every "
+                   "assignment of memory orders with link / owner stores release, their loads acquire and the CAS on "
+                   "m_zombie_head acq_rel): (a) every access to a list node - atomic or plain, by an iterator, a writer or a "
+                   "reclaimer - happens-after the plain initialisation of the node (write mutex between writers, "
+                   "m_head/next store -> load for readers); (b) every access to a log record happens-after its plain "
+                   "initialisation and the CAS that pushed it (every successful CAS on m_zombie_head synchronises with every "
+                   "later one: the location is only written by RMWs; the relaxed load of m_zombie_head and the relaxed store of "
+                   "the new record's next carry no obligation); (c) the destruction and the deallocation of a node and of a log "
+                   "record by a handle release happen-after EVERY earlier access to it by any thread (owner.store(nullptr) -> the "
+                   "reclaimer's load of that owner: the happens-before content of the C05 grace period); (d) each of link store, "
+                   "link load, owner store, owner load shown necessary by a concrete accepted trace that races when it is relaxed, "
+                   "the CAS by a trace in which a scanner's atomic load of owner is no longer ordered after the record's construction; "
+                   "cow_guarded (over every trace the cow model accepts; the model embeds the left-right model and delegates to it): "
+                   "the accepted cow trace projects to an accepted left-right trace whose happens-before image embeds into the cow "
+                   "trace's, so the left-right theorem orders every pair of conflicting accesses of m_data's two shared_ptr copies; "
+                   "the payload of a version is written only by the thread holding the writer mutex, by one thread per version, "
+                   "and every read of it (through a snapshot, or as the source of the next writer's copy) happens-after every "
+                   "write to it (writes -> program order -> the store that installs the version on a side -> left-right theorem -> "
+                   "the reader's load of that side -> program order -> the read; the release store / acquire load of "
+                   "m_readingLeft shown necessary by a racing accepted trace); the destruction of a version happens-after every "
+                   "read of it through a snapshot in happens-before EXTENDED by the shared_ptr control-block edges (assumption). "
                    "Tied to the source on every run: the unmodified headers run against substituted std primitives (and the "
                    "plain-access tap) under a deterministic scheduler; every raw trace of every client is mapped to "
                    "happens-before events using the memory orders WRITTEN IN THE SOURCE and must pass the Lean checker, so a "
@@ -287,7 +317,10 @@ def register(PROPS, COMPONENTS):
         assumptions=["std::mutex / shared_mutex / condition_variable / atomic give exactly the synchronises-with edges of Base/HB.lean",
                      "clients touch wrapped objects only through the library's handles / operations; with locking disabled "
                      "(guarded_opt(false)) the user opted out and plain accesses are not checked",
-                     "user functors / payload operations are race-free themselves"],
+                     "user functors / payload operations are race-free themselves",
+                     "cow_guarded: std::shared_ptr's control block orders the release of every reference (destruction of a snapshot "
+                     "handle) before the destruction of the managed object by the last owner (C07_cow_destroy_after_snapshot is "
+                     "stated in happens-before extended by exactly these edges)"],
         partial=["the theorem is over the operational abstraction above (SC-interleaved, declared-order clocks), not the axiomatic "
                  "C++11 model: executions with stale reads of non-seq_cst loads, load buffering or hardware reorderings are not "
                  "covered; libstdc++ internals are trusted",
@@ -301,8 +334,20 @@ def register(PROPS, COMPONENTS):
                  "about the positions before the store / after the load)",
                  "covered through the checker on OBSERVED traces only (raceFree + its soundness, every run): deferred_guarded's "
                  "wrapped object, DualMappedVector/SearchableObjectHolder/DelayedObjects, the read->write half of "
-                 "the TripWire client data; rcu_list (RCU log, link stores) and cow_guarded: PLACEHOLDER - their models are "
-                 "being built on other branches, nothing model-level is claimed for them here",
+                 "the TripWire client data",
+                 "cow_guarded: C07_cow_destroy_after_snapshot is relative to the control-block edges (the destruction of a "
+                 "snapshot handle happens-before the destruction of the managed object by the last owner: libstdc++'s use-count "
+                 "decrement is not traced, stated as the relation CBedge); not model-level: destruction vs. the reads made through "
+                 "the left-right read handle inside lock() (the source of a copy), destruction vs. the writer's own accesses, "
+                 "the reference the two sides hold (released inside the assignment windows at a moment the trace does not show)",
+                 "rcu_list: the model-level theorems C07_rcu_* (publication of nodes and records, reclamation of nodes and records, "
+                 "necessity of the orders) are over traces that have not entered ~rcu_list: the destructor is ordered after every "
+                 "other use by the client (in the harness: the joins), as for any object, and its accesses are checked on the "
+                 "observed traces only (hb-rcu); the pairs not covered by (a)-(c) - two accesses of `deleted` by writers under the "
+                 "write mutex, an access after the destruction (excluded by C05/C13: ledger state) - are not restated as a single "
+                 "no-race theorem for the mapped trace; the seq_cst of the scan loads / of the CAS is also what makes the "
+                 "INTERLEAVING of C05 hold (a reader that registers after a scan has started is above the scanner's record), which "
+                 "the operational abstraction takes as given",
                  "lr_guarded: the theorem needs only release on the store of m_readingLeft and on the counter decrement and "
                  "acquire on the load of m_readingLeft and on the counter load; the seq_cst of the increment and of "
                  "m_countingLeft is needed for the INTERLEAVING (store-buffering pattern store rl; load cnt || inc cnt; load rl), "
